@@ -67,3 +67,35 @@ Example C18_demo :
   handshake hs_init tr [97;98;100] = (mkhs 5 frame 1024, 1, []) /\
   handshake hs_init [TChunk (ztake 30 all)] [97;98;99] = (mkhs 5 [] 1024, 2, []).
 Proof. vm_compute. auto. Qed.
+
+(* Completeness of the read loop: a head that ends within the size limit is found, whatever the segmentation of the data the
+   transport delivers, the buffer it starts with and its growth (n doublings reach the limit). *)
+Theorem C18_read_loop_finds_the_head : forall fuel n buf cap tr e,
+  zlen buf <= cap -> 0 < cap -> forallb is_chunk tr = true ->
+  find_end buf 0 = None -> find_end (buf ++ flat tr) 0 = Some e -> e <= hs_limit -> hs_limit <= cap * 2 ^ Z.of_nat n ->
+  2 * zlen tr + 2 * Z.of_nat n + (if zlen buf =? cap then 0 else 1) < Z.of_nat fuel ->
+  exists buf1 tr1, read_head fuel buf cap tr = HDone buf1 e tr1.
+Proof. exact read_head_complete. Qed.
+Print Assumptions C18_read_loop_finds_the_head.
+
+(* A conforming response is never refused: every segmentation (up to 90 data segments - the bound comes from the model's
+   loop fuel) of a response whose head ends within 64 KiB and is acceptable ends with the stream active and exactly the
+   bytes behind the blank line in the decoder's buffer or still in the transport - on a fresh stream and on one that was
+   handshaken before (whatever capacity its handshake buffer has grown to). *)
+Theorem C18_conforming_response_is_accepted : forall s tr expected e,
+  forallb is_chunk tr = true -> (length tr <= 90)%nat ->
+  find_end (flat tr) 0 = Some e -> e <= hs_limit -> hs_verdict (ztake e (flat tr)) expected = 0 ->
+  exists s1 tr1, handshake s tr expected = (s1, 0, tr1) /\ h_state s1 = 1 /\ h_src s1 ++ flat tr1 = zdrop e (flat tr).
+Proof. exact handshake_accepts. Qed.
+Print Assumptions C18_conforming_response_is_accepted.
+
+(* Non-vacuity: the demo response in three segments meets the premises. *)
+Example C18_accept_premises :
+  let resp := [72;84;84;80;47;49;46;49;32;49;48;49;32;88;13;10] ++
+              [117;112;103;114;97;100;101;58;32;32;32;87;101;98;83;111;99;107;101;116;13;10] ++
+              [83;69;67;45;87;69;66;83;79;67;75;69;84;45;65;67;67;69;80;84;58;97;98;99;13;10;13;10] in
+  let all := resp ++ [129; 2; 104; 105] in
+  let tr := [TChunk (ztake 10 all); TChunk (zsub 10 (zlen resp - 2) all); TChunk (zdrop (zlen resp - 2) all)] in
+  forallb is_chunk tr = true /\ (length tr <= 90)%nat /\ find_end (flat tr) 0 = Some (zlen resp) /\ zlen resp <= hs_limit /\
+  hs_verdict (ztake (zlen resp) (flat tr)) [97;98;99] = 0.
+Proof. cbv zeta. split; [reflexivity|]. split; [cbn; lia|]. vm_compute. repeat split; try reflexivity. discriminate. Qed.
